@@ -29,6 +29,7 @@ def dispatch (line : String) : String :=
   | "blk" :: args => Driver.Cond.handleBlk args
   | "sym" :: args => Driver.Sym.handle args
   | "twopass" :: args => Driver.TwoPass.handle args
+  | "twopass430" :: args => Driver.TwoPass.handle430 args
   | "sim" :: args => Driver.Sim.handle args
   | "simrun" :: args => Driver.Sim.handleRun args
   | "arch" :: args => Driver.Sim.handleArch args
